@@ -642,7 +642,7 @@ func workerMain(st Stream, from, to int, progressPath, resultPath string, budget
 			setProgress(i, e)
 			obs, pi := runEntry(w.env, e, src, w.budget)
 			hist[entryNames[e]+":"+obs]++
-			if e == EEval && only < 0 && strings.HasPrefix(st.Shape(i), "F ") {
+			if e == EEval && only < 0 && (strings.HasPrefix(st.Shape(i), "F ") || strings.HasPrefix(st.Shape(i), "D ")) {
 				// call-check tie: outcome class of the typed call for the model of check.go
 				cls := map[string]string{ObsValue: "ok", ObsError: "err", ObsPanic: "crash"}[obs]
 				if cls != "" {
